@@ -3861,3 +3861,49 @@ func allCallersPassOwnStorage(p *eng.Prog, fn *ssa.Function, k int) bool {
 	}
 	return ok && n > 0
 }
+
+// valueCursorLoop: the loop of fn keeps its state in a struct VALUE that is carried round the loop (a loop-carried phi
+// of a struct type of the module with a string field) and handed through stage functions that return the next state
+// (cur = step(cur)). The split-loop rules read a remaining text that is a string variable, or a field of a struct the
+// loop updates in place; they do not interpret this functional form and say so instead of alleging anything.
+func valueCursorLoop(fn *ssa.Function) bool {
+	found := false
+	hasString := func(t types.Type) bool {
+		st, ok := t.Underlying().(*types.Struct)
+		if !ok {
+			return false
+		}
+		for i := 0; i < st.NumFields(); i++ {
+			if b, ok := st.Field(i).Type().Underlying().(*types.Basic); ok && b.Kind() == types.String {
+				return true
+			}
+		}
+		return false
+	}
+	eng.Instrs(fn, false, func(in ssa.Instruction) {
+		switch x := in.(type) {
+		case *ssa.Phi:
+			if isLoopCarried(x) && hasString(x.Type()) {
+				found = true
+			}
+		case *ssa.Store:
+			// the state variable lives in a local cell and is replaced as a whole by what a stage returns
+			al, ok := x.Addr.(*ssa.Alloc)
+			if !ok || !eng.InLoop(x.Block()) || !hasString(x.Val.Type()) {
+				return
+			}
+			_ = al
+			switch v := x.Val.(type) {
+			case *ssa.Call:
+				found = true
+			case *ssa.Extract:
+				if _, isCall := v.Tuple.(*ssa.Call); isCall {
+					found = true
+				}
+			}
+		}
+	})
+	return found
+}
+
+const notEvaluatedValueCursor = "not evaluated: the loop state is a struct value handed from stage function to stage function (cur = step(cur)); this rule reads a remaining text kept in a string variable or updated in place"
